@@ -42,25 +42,7 @@ func TestReplay(t *testing.T) { ev.RunReplay(t, judges) }
 // in matchKnown; every other breach of the same rule is still reported.  A tag
 // is active when it is listed here OR in /verif/known_findings.json (open).
 // VERIF_NO_EXCLUDE=1 disables all of them.
-var localKnownTags = map[string]bool{
-	"c09-folded-constant-in-emit-range":                    true, // C09-1
-	"c09-abstract-literal-times-matrix":                    true, // C09-2
-	"c09-const-composite-access-folds-to-flat-scalar":      true, // C09-3
-	"c09-exprtype-dropped-by-compact-types":                true, // C09-4
-	"c09-stale-exprtype-after-concretize":                  true, // C09-5
-	"c09-atomicstore-value-emitted-after-store":            true, // C09-6
-	"c09-swizzle-of-pointer-param-without-load":            true, // C09-7
-	"c09-math-transpose-determinant-type":                  true, // C09-8
-	"c09-compound-assign-through-pointer-param":            true, // C09-9
-	"c09-const-matrix-arithmetic-folds-to-vector":          true, // C09-10
-	"c09-extractbits-abstract-arg-typed-u32":               true, // C09-11
-	"c09-bitcast-of-abstract-literal":                      true, // C09-12
-	"c09-validate-duplicate-binding-across-entry-points":   true, // C09-13
-	"c09-abstract-splat-not-concretized":                   true, // C09-14
-	"c09-folded-abstract-vector-picks-first-vecn-type":     true, // C09-15
-	"c09-global-expr-type-handle-dropped-by-compact-types": true, // C09-16
-	"c09-const-splat-as-single-component-compose":          true, // C09-17
-}
+var localKnownTags = map[string]bool{}
 
 func excluded(tag string) bool {
 	if os.Getenv("VERIF_NO_EXCLUDE") != "" {
